@@ -50,15 +50,15 @@ template <class T> class EDGetTokenT {
 template <class T> class Handle {
  public:
   Handle() {}
-  bool isValid() const { return (bool)m_p; }
-  bool failedToGet() const { return !m_p; }
+  bool isValid() const { return m_p != nullptr; }
+  bool failedToGet() const { return m_p == nullptr; }
   const T &operator*() const { check(); return *m_p; }
-  const T *operator->() const { check(); return m_p.get(); }
-  const T *product() const { check(); return m_p.get(); }
-  void vp_set(std::shared_ptr<T> p) { m_p = p; }
+  const T *operator->() const { check(); return m_p; }
+  const T *product() const { check(); return m_p; }
+  void vp_set(const T *p) { m_p = p; }
  private:
   void check() const { if (!m_p) throw vp::Fault("retrieve_failed"); }
-  std::shared_ptr<T> m_p;
+  const T *m_p = nullptr;
 };
 
 template <class T> class Service {
@@ -78,8 +78,8 @@ class Event {
   template <class T> bool fetch(const std::string &label, Handle<T> &h) const {
     vp::st().requests.push_back(std::make_pair(std::string(T::vp_ctype()), label));
     auto it = vp::st().ev->store.find(std::string(T::vp_coll()) + "/" + label);
-    if (it == vp::st().ev->store.end()) { h.vp_set(std::shared_ptr<T>()); return false; }
-    h.vp_set(std::shared_ptr<T>(T::vp_make(it->second)));
+    if (it == vp::st().ev->store.end()) { h.vp_set(nullptr); return false; }
+    h.vp_set(T::vp_fetch(it->second));
     return true;
   }
 };
